@@ -82,6 +82,12 @@ func (o *Obligation) scriptV(P *Prog, models bool, hide int) string {
 		reveal = func(name string) bool { return set[name] }
 	case 2:
 		reveal = func(name string) bool { return false }
+	case 3:
+		set := map[string]bool{}
+		for _, n := range P.opaqueNames() {
+			set[n] = !P.isNonlinearDef(n)
+		}
+		reveal = func(name string) bool { return set[name] }
 	}
 	b.WriteString(P.preamble(reveal))
 	for _, d := range o.Decls {
@@ -165,14 +171,17 @@ func solve(P *Prog, o *Obligation, timeoutMs int, all bool) *Result {
 	}
 	if !o.Cover && len(P.usedRec) > 0 && !all {
 		seen := map[string]bool{full: true}
-		for _, hide := range []int{2, 1} {
+		for _, hide := range []int{2, 3, 1} {
 			sc := o.scriptV(P, true, hide)
 			if seen[sc] {
 				continue
 			}
 			seen[sc] = true
 			for _, sd := range solvers {
-				if sd.name == "cvc5" && hide == 1 {
+				if sd.name == "cvc5" && hide != 2 {
+					continue
+				}
+				if sd.name == "z3" && hide == 1 {
 					continue
 				}
 				jobs = append(jobs, job{sd, sc, hide})
